@@ -21,6 +21,7 @@ from mc.engine import Res, Space, digest, multisets, viol
 from mc.model import CatVar, SEL, Schema, tabulate
 
 ID = "C06"
+CHUNK = 16
 RULE = ("states = (multiset of <=N respondents, transform config) over 3-D schemas (table = CAT with the "
         "missing category first/mid/last, MR, CA items) and multi-cube sets (CA-as-0th, tab-book, numeric "
         "summary); non-trivial = at least two partitions differ in their counts; distinct = distinct "
@@ -50,12 +51,12 @@ SP = {}
 SCHEMAS = {}
 
 
-def _reg3(name, tvar, trole, rvar, rrole, cvar, crole, quick, thorough, cfgs=CFG):
-    sch3 = Schema(name, [tvar, rvar, cvar], [(trole, 0), (rrole, 1), (crole, 2)], weighted=True)
-    sch2 = Schema(name + "_2d", [tvar, rvar, cvar], [(rrole, 1), (crole, 2)], weighted=True)
+def _reg3(name, tvar, trole, rvar, rrole, cvar, crole, quick, thorough, cfgs=CFG, weights=(1, 2), only=None, **flags):
+    sch3 = Schema(name, [tvar, rvar, cvar], [(trole, 0), (rrole, 1), (crole, 2)], weighted=len(weights) > 1, **flags)
+    sch2 = Schema(name + "_2d", [tvar, rvar, cvar], [(rrole, 1), (crole, 2)], weighted=len(weights) > 1, **flags)
     SCHEMAS[name] = sch3
     SP[name] = dict(kind="3d", sch3=sch3, sch2=sch2, quick=quick, thorough=thorough, cfgs=cfgs,
-                    profiles=sch3.profiles((1, 2)))
+                    profiles=sch3.profiles(weights), only=only)
 
 
 for _p in ("first", "mid", "last"):
@@ -68,6 +69,16 @@ _reg3("cat_x_mr_x_cat", S.cat("t", 2, "mid"), "cat", M2, "mr", A2, "cat", 1, 2, 
 _reg3("mr_x_cat_x_cat", N2, "mr", A2, "cat", B2, "cat", 1, 2)
 _reg3("mr_x_mr_x_cat", N2, "mr", M2, "mr", A2, "cat", 1, 1, cfgs=[{}])
 _reg3("mr_x_cat_x_mr", N2, "mr", A2, "cat", M2, "mr", 1, 1, cfgs=[{}])
+# overlap measures in 3-D cubes (pairwise tests between multiple-response columns)
+OV_ONLY = {"counts", "column_proportions", "pairwise_indices", "column_weighted_bases"}
+_reg3("mr_x_cat_x_mr_overlaps", N2, "mr", A2, "cat", M2, "mr", 2, 3, cfgs=[{}], weights=(1,), only=OV_ONLY, overlaps=True)
+# the overlap statistics need several respondents before t is finite: a REDUCED profile alphabet
+# (table item selected / other / both; two row categories; four column patterns) explored deeper
+_reg3("mr_x_cat_x_mr_overlaps_deep", N2, "mr", A2, "cat", M2, "mr", 4, 5, cfgs=[{}], weights=(1,), only=OV_ONLY, overlaps=True)
+SP["mr_x_cat_x_mr_overlaps_deep"]["profiles"] = [
+    ((t, a, c), 1, None) for t in ((1, 0), (0, 0), (1, 1)) for a in (1, 2) for c in ((1, 0), (0, 1), (1, 1), (0, -1))]
+_reg3("cat_x_cat_x_mr_overlaps", S.cat("t", 2, "first"), "cat", A2, "cat", M2, "mr", 2, 3, cfgs=[{}], weights=(1,),
+      only=OV_ONLY, overlaps=True)
 
 # CA items as the table dimension: [ca_items, ca_cats, cat]
 _ca3 = Schema("ca_x_cat_3d", [CA, B2], [("ca_items", 0), ("ca_cats", 0), ("cat", 1)], weighted=True)
@@ -139,13 +150,15 @@ def _get(part, n):
         return ("exc", type(e).__name__)
 
 
-def compare_parts(V, tag, pa, pb, extra_skip=(), label=""):
+def compare_parts(V, tag, pa, pb, extra_skip=(), label="", only=None):
     """every public output of pa equals that of pb"""
     asserted = 0
     if type(pa).__name__ != type(pb).__name__:
         V.append(viol("%s:partition_type" % tag, "%s is a %s, reference is a %s" % (label, type(pa).__name__, type(pb).__name__)))
         return 1
     for n in _names(pa, extra_skip):
+        if only is not None and n not in only:
+            continue
         ka, va = _get(pa, n)
         kb, vb = _get(pb, n)
         asserted += 1
@@ -169,6 +182,19 @@ def compare_parts(V, tag, pa, pb, extra_skip=(), label=""):
             asserted += 1
             if [int(i) for i in getattr(pa, fn)()] != [int(i) for i in getattr(pb, fn)()]:
                 V.append(viol("%s:%s" % (tag, fn), "%s %s differs from the reference" % (label, fn)))
+    # methods taking a selected column
+    if hasattr(pa, "pairwise_significance_t_stats") and len(getattr(pa, "shape", ())) == 2 and pa.shape[1] > 0:
+        for fn in ("pairwise_significance_t_stats", "pairwise_significance_p_vals"):
+            for col in range(min(2, pa.shape[1])):
+                asserted += 1
+                try:
+                    a, b = getattr(pa, fn)(col), getattr(pb, fn)(col)
+                except Exception as e:
+                    V.append(viol("%s:%s:exception" % (tag, fn), "%s %s(%d) raised %s" % (label, fn, col, type(e).__name__)))
+                    continue
+                d = first_diff(a, b)
+                if d is not None:
+                    V.append(viol("%s:%s" % (tag, fn), "%s %s(%d) at %s: %r, reference gives %r" % (label, fn, col, d[0], d[1], d[2])))
     return asserted
 
 
@@ -198,7 +224,7 @@ def check(space, state):
         for k, (label, pred) in enumerate(elems):
             sub = [r for r in data if pred(r)]
             ref = Cube(tabulate(sch2, sub), transforms=copy.deepcopy(cfg), population=1000, mask_size=2).partitions[0]
-            asserted += compare_parts(V, "3d", parts[k], ref, label="partition %d" % k)
+            asserted += compare_parts(V, "3d", parts[k], ref, label="partition %d" % k, only=sp.get("only"))
             asserted += 1
             tn = parts[k].table_name
             if label is None:
